@@ -12,6 +12,7 @@ import (
 	"sort"
 	"strconv"
 	"strings"
+	"sync"
 
 	"github.com/prometheus/client_golang/prometheus"
 	"google.golang.org/grpc"
@@ -155,6 +156,8 @@ type Sim struct {
 
 	curResp  *Resp
 	curDbErr bool
+	// numbers of the proposals the last GetSuggestions reply left unnamed, in reply order (see learnNames)
+	unnamedQueue []int
 
 	RPCs        []RPC
 	JobCreates  []int
@@ -189,14 +192,70 @@ runtime:
 func i32(v int64) *int32 { x := int32(v); return &x }
 
 // TrialName gives the object name of trial number k (zero padded so that name order = number order).
-func TrialName(k int) string { return fmt.Sprintf("t%04d", k) }
+// Trial names.  The fake algorithm service names most of its proposals t<number>; every seventh one (number % 7 == 3) it
+// leaves unnamed, and katib names it <suggestion>-<random suffix>.  Such a name is tied to the number of the proposal when
+// it first appears in a Suggestion status write (in reply order), so that histories keep speaking of trial numbers.
+var (
+	foreignMu   sync.Mutex
+	foreignNum  = map[string]int{}
+	foreignName = map[int]string{}
+)
+
+// Unnamed reports whether the fake service leaves proposal k to be named by katib.
+func Unnamed(k int) bool { return k%7 == 3 }
+
+func resetForeign() {
+	foreignMu.Lock()
+	defer foreignMu.Unlock()
+	foreignNum, foreignName = map[string]int{}, map[int]string{}
+}
+
+func TrialName(k int) string {
+	foreignMu.Lock()
+	defer foreignMu.Unlock()
+	if n, ok := foreignName[k]; ok {
+		return n
+	}
+	return fmt.Sprintf("t%04d", k)
+}
 
 func trialNum(name string) int {
-	n, err := strconv.Atoi(strings.TrimPrefix(name, "t"))
-	if err != nil {
-		return -1
+	if strings.HasPrefix(name, "t") {
+		if n, err := strconv.Atoi(strings.TrimPrefix(name, "t")); err == nil {
+			return n
+		}
 	}
-	return n
+	foreignMu.Lock()
+	defer foreignMu.Unlock()
+	if n, ok := foreignNum[name]; ok {
+		return n
+	}
+	return -1
+}
+
+// learnNames ties the katib-generated names among the assignments of a Suggestion status to the unnamed proposals of the
+// reply they came from (in order).  A generated name that is already known keeps its number: two proposals that katib gave
+// the same name then show up as the same number twice.
+func (s *Sim) learnNames(sg *suggestionsv1beta1.Suggestion) {
+	foreignMu.Lock()
+	defer foreignMu.Unlock()
+	for _, a := range sg.Status.Suggestions {
+		if strings.HasPrefix(a.Name, "t") {
+			if _, err := strconv.Atoi(strings.TrimPrefix(a.Name, "t")); err == nil {
+				continue
+			}
+		}
+		if _, ok := foreignNum[a.Name]; ok {
+			continue
+		}
+		if len(s.unnamedQueue) == 0 {
+			continue
+		}
+		k := s.unnamedQueue[0]
+		s.unnamedQueue = s.unnamedQueue[1:]
+		foreignNum[a.Name] = k
+		foreignName[k] = a.Name
+	}
 }
 
 func valStr(v int64) string { return strconv.FormatFloat(float64(v)/8, 'f', -1, 64) }
@@ -260,6 +319,7 @@ func (nopRecorder) AnnotatedEventf(runtime.Object, map[string]string, string, st
 
 // New builds the cluster, creates the experiment and syncs the experiment cache (as World.init does).
 func New(c Cfg) *Sim {
+	resetForeign()
 	s := runtime.NewScheme()
 	_ = apis.AddToScheme(s)
 	_ = corev1.AddToScheme(s)
@@ -522,6 +582,9 @@ func (w *statusWriter) Create(cx context.Context, obj client.Object, sub client.
 	return errors.New("status create not supported")
 }
 func (w *statusWriter) Update(cx context.Context, obj client.Object, opts ...client.SubResourceUpdateOption) error {
+	if sg, ok := obj.(*suggestionsv1beta1.Suggestion); ok {
+		w.c.sim.learnNames(sg)
+	}
 	if err := w.c.gate("status"); err != nil {
 		return err
 	}
@@ -553,9 +616,14 @@ func (f *fakeAlgo) GetSuggestions(cx context.Context, in *api_pb.GetSuggestionsR
 		return nil, errors.New("algorithm service unavailable")
 	}
 	rep := &api_pb.GetSuggestionsReply{}
+	f.s.unnamedQueue = nil
 	for _, n := range r.Names {
 		pa := &api_pb.GetSuggestionsReply_ParameterAssignments{
 			TrialName: TrialName(n), Assignments: []*api_pb.ParameterAssignment{{Name: "lr", Value: "0.5"}}}
+		if Unnamed(n) {
+			pa.TrialName = "" // katib names it
+			f.s.unnamedQueue = append(f.s.unnamedQueue, n)
+		}
 		if n%3 == 0 {
 			pa.Labels = map[string]string{"team": "other", "generation": strconv.Itoa(n)}
 		}
